@@ -34,6 +34,8 @@ def abi_type(prog, t):
         return ("rec", [("union", arms), ("bool",)])
     if k == "unit":
         return ("void",)
+    if k == "ordering":
+        return ("i8",)        # core::cmp::Ordering crosses as its i8 discriminant (the macro rewrites the return type)
     if k == "cb":
         return ("rec", [("ptr",), ("ptr",), ("ptr",)])
     if k == "raw" and t[1].startswith("impl "):
